@@ -61,6 +61,9 @@ callV == <<gen, wokenL, started>>
 budV == <<nfire, nstale, nspur, ninfire>>
 
 N == cfg.n
+\* optional flags (absent = FALSE): trace validation mode, the caller may present the previous waker again
+TraceMode == "trace" \in DOMAIN cfg /\ cfg.trace
+Reuse == "reuse" \in DOMAIN cfg /\ cfg.reuse
 Ch == DOMAIN ans
 Sub == cfg.sub
 NeverSet == Range(cfg.never)
@@ -133,11 +136,12 @@ K(c) == polls[c] - 1
 \* what child c may answer now; isStream: the child is a stream
 Answers(c, isStream) ==
      (IF (pend[c] < cfg.maxPend \/ c \in NeverSet) /\ c # cfg.x THEN {[r |-> "pending", ok |-> TRUE]} ELSE {})
-  \cup (IF c \in NeverSet THEN {} ELSE
-        IF isStream
-          THEN (IF nit[c] < cfg.maxItems \/ (c = cfg.x /\ nit[c] < cfg.maxX) THEN {[r |-> "some", ok |-> TRUE]} ELSE {})
-               \cup (IF c # cfg.x THEN {[r |-> "none", ok |-> TRUE]} ELSE {})
-          ELSE {[r |-> "ready", ok |-> TRUE]} \cup (IF cfg.fallible THEN {[r |-> "ready", ok |-> FALSE]} ELSE {}))
+  \cup (IF isStream
+          THEN \* a never-ending input may still produce items; it just never ends
+               (IF nit[c] < cfg.maxItems \/ (c = cfg.x /\ nit[c] < cfg.maxX) THEN {[r |-> "some", ok |-> TRUE]} ELSE {})
+               \cup (IF c # cfg.x /\ c \notin NeverSet THEN {[r |-> "none", ok |-> TRUE]} ELSE {})
+          ELSE IF c \in NeverSet THEN {}
+               ELSE {[r |-> "ready", ok |-> TRUE]} \cup (IF cfg.fallible THEN {[r |-> "ready", ok |-> FALSE]} ELSE {}))
 
 ChildSays(c, a) ==
   /\ ans' = [ans EXCEPT ![c] = CASE a.r = "pending" -> "pending" [] a.r = "some" -> "some" [] OTHER -> "done"]
@@ -186,6 +190,17 @@ Poll ==
   /\ pc' = "begin"
   /\ Emit(<<EvPoll(gen + 1)>>)
   /\ UNCHANGED <<cfg, fs, rd, cur, ans, alive, pend, nit, polls, handed, firedL, final, nfire, nstale, ninfire, seen, conc>>
+
+\* the caller presents the same waker as in its previous poll (a re-used waker counts as "latest" again)
+PollReuse ==
+  /\ pc = "idle" /\ ~final /\ started /\ Reuse
+  /\ LET spurious == ~wokenL /\ ~needPoll IN
+       /\ spurious => nspur < cfg.maxSpur
+       /\ nspur' = IF spurious THEN nspur + 1 ELSE nspur
+  /\ wokenL' = FALSE /\ quiesced' = FALSE /\ needPoll' = FALSE
+  /\ pc' = "begin"
+  /\ Emit(<<EvPoll(gen)>>)
+  /\ UNCHANGED <<cfg, fs, rd, cur, ans, alive, pend, nit, polls, handed, firedL, gen, started, final, nfire, nstale, ninfire, seen, conc>>
 
 ---------------------------------------------------------------------------
 (* InlineWaker::wake (utils/wakers/array/waker.rs:21-30, vec/waker.rs), resp. the caller's   *)
@@ -238,8 +253,7 @@ ThreadWake(c, k) ==
   /\ conc' = TRUE
   /\ UNCHANGED <<cfg, fs, pc, cur, ans, alive, pend, nit, polls, handed, gen, started, final, needPoll, nstale, nspur, ninfire, seen, quiesced>>
 
-MaxK == cfg.maxPend + cfg.maxItems + cfg.maxSpur + 3
-Wakes == \E c \in Ch : \E k \in 0..MaxK : Wake(c, k) \/ InFire(c, k) \/ ThreadWake(c, k)
+Wakes == \E c \in Ch : \E k \in 0..(polls[c] - 1) : Wake(c, k) \/ InFire(c, k) \/ ThreadWake(c, k)
 
 ---------------------------------------------------------------------------
 (* dropping the combinator; unwinding out of a child's poll *)
@@ -263,8 +277,12 @@ PanicWith(evs) ==
 (* the wake-only executor has nothing left to do *)
 Owed == {c \in Ch : alive[c] /\ ans[c] = "pending" /\ ~firedL[c] /\ c \notin NeverSet}
 Quiesce ==
-  /\ pc = "idle" /\ started /\ ~wokenL /\ ~needPoll /\ ~quiesced /\ ~final
-  /\ Owed = {}
+  /\ IF TraceMode
+       THEN \* the harness' `settle` reports quiescence whenever its loop ends: also after the final result / the drop
+            /\ pc \in {"idle", "dropped"}
+            /\ (pc = "dropped" \/ final \/ (started /\ ~wokenL /\ ~needPoll /\ Owed = {}))
+       ELSE /\ pc = "idle" /\ started /\ ~wokenL /\ ~needPoll /\ ~quiesced /\ ~final
+            /\ Owed = {}
   /\ quiesced' = TRUE
   /\ Emit(<<Ev("quiesce")>>)
   /\ UNCHANGED <<cfg, fs, rd, pc, cur, ans, alive, pend, nit, polls, handed, firedL, gen, wokenL, started, final, needPoll,
@@ -284,7 +302,7 @@ OwedWake(c) ==
   /\ UNCHANGED <<cfg, fs, pc, cur, ans, alive, pend, nit, polls, handed, gen, started, final, needPoll,
                  nfire, nstale, nspur, ninfire, seen, conc>>
 
-EnvNext == Poll \/ Wakes \/ Quiesce \/ Finish
+EnvNext == Poll \/ PollReuse \/ Wakes \/ Quiesce \/ Finish
 
 ---------------------------------------------------------------------------
 (* properties shared by all families *)
